@@ -575,10 +575,17 @@ def apply_op(s, op, v):
     elif k == "sample":
         if op["what"] in s.sampled:
             raise Skip("sampling twice is refused by design")
+        # every uncertainty of a stateful case is 0 or empty: the sampled copy must have the same values
         if op["what"] == "ps":
+            before = H.proj_parset_values(s.ps)
             s.ps = s.ps.sample()
+            d = canon.pdiff(before, H.proj_parset_values(s.ps), 1e-12)
         else:
+            before = H.proj_progset(s.pg)
             s.pg = s.pg.sample()
+            d = canon.pdiff(before, H.proj_progset(s.pg), 1e-12)
+        if d:
+            v.add("stateful/zero-uncertainty-sample-changes-values/" + op["what"], "sample() of an object without uncertainty changed %r" % d[:3])
         s.sampled.add(op["what"])
     elif k == "calib":
         src = sc.dcp(s.ps)
